@@ -243,3 +243,96 @@ impl Storage for SecondaryStorage {
         self.catalog.clone()
     }
 }
+
+/// Access to the column encodings for the verification harness (C06): build a one-column
+/// RowSet with explicit encoding options and read it back with an explicit read program.
+#[cfg(risinglight_verif)]
+pub mod verif_api {
+    use std::path::PathBuf;
+    use std::sync::Arc;
+
+    use moka::future::Cache;
+    use risinglight_proto::rowset::block_checksum::ChecksumType;
+
+    use super::*;
+    use crate::array::{ArrayBuilderImpl, DataChunk};
+    use crate::catalog::ColumnDesc;
+    use crate::types::{DataType, DataValue};
+
+    /// One step of a read program.
+    #[derive(Clone, Copy, Debug)]
+    pub enum ReadOp {
+        /// `next_batch(Some(n))`, or `next_batch(None)` for 0
+        Next(usize),
+        /// `skip(n)`
+        Skip(usize),
+    }
+
+    /// What a read step returned: `(first row id, values)`; `None` = end of column.
+    pub type ReadResult = Option<(u32, Vec<DataValue>)>;
+
+    /// Build the column from `chunks` (appended one by one), open it and seek to `start`.
+    pub struct ColumnUnderTest {
+        iter: ColumnIteratorImpl,
+        pub blocks: usize,
+    }
+
+    pub async fn build_column(
+        ty: DataType,
+        nullable: bool,
+        encode: &str,
+        block_size: usize,
+        chunks: &[Vec<DataValue>],
+        start: u32,
+    ) -> StorageResult<ColumnUnderTest> {
+        let columns: Arc<[ColumnCatalog]> =
+            vec![ColumnCatalog::new(0, ColumnDesc::new("v", ty.clone(), nullable))].into();
+        let options = ColumnBuilderOptions {
+            target_block_size: block_size,
+            checksum_type: ChecksumType::Crc32,
+            encode_type: match encode {
+                "rle" => EncodeType::RunLength,
+                "dict" => EncodeType::Dictionary,
+                _ => EncodeType::Plain,
+            },
+            record_first_key: false,
+        };
+        let mut builder = RowsetBuilder::new(columns.clone(), options);
+        for values in chunks {
+            let mut ab = ArrayBuilderImpl::new(&ty);
+            for v in values {
+                ab.push(v);
+            }
+            builder.append([ab.finish()].into_iter().collect::<DataChunk>());
+        }
+        let backend = IOBackend::in_memory();
+        let dir = PathBuf::from("verif_column");
+        RowsetWriter::new(&dir, backend.clone())
+            .flush(builder.finish())
+            .await?;
+        let rowset = DiskRowset::open(dir, columns, Cache::new(64), 0, backend).await?;
+        let column = rowset.column(0);
+        let blocks = column.index().len();
+        let iter = ColumnIteratorImpl::new(column, rowset.column_info(0), start).await?;
+        Ok(ColumnUnderTest { iter, blocks })
+    }
+
+    impl ColumnUnderTest {
+        pub async fn step(&mut self, op: ReadOp) -> StorageResult<ReadResult> {
+            match op {
+                ReadOp::Skip(n) => {
+                    self.iter.skip(n);
+                    Ok(None)
+                }
+                ReadOp::Next(n) => {
+                    let r = self.iter.next_batch(if n == 0 { None } else { Some(n) }).await?;
+                    Ok(r.map(|(row_id, array)| (row_id, array.iter().collect())))
+                }
+            }
+        }
+
+        pub fn position(&self) -> u32 {
+            self.iter.fetch_current_row_id()
+        }
+    }
+}
